@@ -153,7 +153,7 @@ func cmdCheck(args []string) {
 				for top.Parent() != nil {
 					top = top.Parent()
 				}
-				if len(f.Blocks) > 0 && top.Pkg != nil && top.Pkg.Pkg.Path() == pkg && f.Synthetic == "" && f.Name() != "init" && !excluded(n) && !seen[f] {
+				if len(f.Blocks) > 0 && top.Pkg != nil && top.Pkg.Pkg.Path() == pkg && f.Synthetic == "" && f.Name() != "init" && !excluded(n) && !seen[f] && !sh.newHelpers[top] {
 					fns = append(fns, f)
 					seen[f] = true
 				}
@@ -258,7 +258,13 @@ func cmdCheck(args []string) {
 	var samples []map[string]interface{}
 	bySolver := map[string]int{}
 	solveTime := 0.0
+	guardBy := map[string]int{}
+	guardTime := 0.0
 	assumptions := map[string]bool{}
+	for _, n := range sh.renameNotes {
+		fmt.Println("NOTE:", n)
+		assumptions["alpha-renaming (checked by SSA shape hash against /verif/baseline/shapes.json): "+n] = true
+	}
 	var funcsUnder []string
 	var knownPrinted []string
 	unproved := 0
@@ -314,6 +320,8 @@ func cmdCheck(args []string) {
 				covers++
 				if ob.Status != "unsat" {
 					coverOK++
+					guardBy[ob.Status+" by "+ob.Solver]++
+					guardTime += ob.Time
 				} else {
 					// vacuity: the path condition is contradictory
 					name := ob.Name
@@ -385,7 +393,7 @@ func cmdCheck(args []string) {
 	for _, c := range cfg.Bounded {
 		cmd := exec.Command("bash", "-c", c)
 		cmd.Dir = *verif
-		cmd.Env = append(os.Environ(), "VERIF_TIER="+*tier, "VERIF_PROP="+id)
+		cmd.Env = append(os.Environ(), "VERIF_TIER="+*tier, "VERIF_PROP="+id, "REPO="+*repo)
 		out, err := cmd.CombinedOutput()
 		rec := map[string]interface{}{"cmd": c, "ok": err == nil, "output_tail": truncate(tail(string(out), 30), 3000)}
 		bounded = append(bounded, rec)
@@ -433,6 +441,8 @@ func cmdCheck(args []string) {
 		"known_findings":     knownPrinted,
 		"vacuity_guards":     covers,
 		"vacuity_guards_ok":  coverOK,
+		"vacuity_guards_by":  guardBy,
+		"vacuity_guards_s":   round3(guardTime),
 		"functions_under_contract": funcsUnder,
 		"discharged_by":      bySolver,
 		"solver_time_s":      round3(solveTime),
